@@ -80,6 +80,7 @@ func runSelftest(root, prop string) []selftestResult {
 		}
 		var meta struct {
 			Property string `json:"property"`
+			Tier     string `json:"tier"` // "thorough" when the change is only visible to obligations verified in that tier
 		}
 		if json.Unmarshal(mb, &meta) != nil || meta.Property != prop {
 			continue
@@ -92,7 +93,11 @@ func runSelftest(root, prop string) []selftestResult {
 			continue
 		}
 		skipReplay = true
-		res := runCheck(root, prop, "quick", ov)
+		tier := "quick"
+		if meta.Tier == "thorough" {
+			tier = "thorough"
+		}
+		res := runCheck(root, prop, tier, ov)
 		skipReplay = false
 		r.Violations = len(res.Violations)
 		r.Caught = r.Violations > 0
